@@ -147,7 +147,7 @@ PURE_METHODS = {"lower", "upper", "strip", "lstrip", "rstrip", "startswith", "en
                 "split", "isdigit", "isnumeric", "isdecimal", "find", "get", "keys", "items", "values", "count",
                 "join", "encode", "decode", "replace", "partition", "rpartition", "rsplit", "title", "isalpha", "isalnum",
                 "isspace", "isupper", "islower", "rfind", "index", "zfill", "hex", "capitalize", "swapcase", "group", "groups",
-                "translate", "isascii", "removeprefix", "removesuffix", "expandtabs", "splitlines"}
+                "translate", "isascii", "removeprefix", "removesuffix", "expandtabs", "splitlines", "copy"}
 
 
 def _is_builtin_class(name):
@@ -574,6 +574,15 @@ class Explorer:
                     return UNKNOWN
                 except Exception:
                     return UNKNOWN
+            if isinstance(e.func, ast.Name) and e.func.id == "getattr" and len(e.args) in (2, 3) and not e.keywords:
+                # getattr(obj, "name"[, default]) with a known name is the attribute access `obj.name`
+                nm = self.ev(e.args[1], env)
+                if isinstance(nm, str) and nm.isidentifier():
+                    att = ast.copy_location(ast.Attribute(value=e.args[0], attr=nm, ctx=ast.Load()), e)
+                    v = self.ev(att, env)
+                    if v is not UNKNOWN or len(e.args) == 2:
+                        return v
+                return UNKNOWN
             if isinstance(e.func, ast.Name) and e.func.id == "hasattr" and len(e.args) == 2:
                 v = self.ev(e.args[0], env)
                 nm = self.ev(e.args[1], env)
